@@ -98,6 +98,17 @@ def plan(tier, seed):
         jobs.append({"id": f"seq:{q}:{'+'.join(k.split('/')[1] for k in ks)}", "cid": ",".join(ks), "labels": {"shared.py": ("sequence", "plain", lay)},
                      "files": {"shared.py": b64(gen.layout(src, lay)), "requirements.txt": b64(b"requests\n")},
                      "argv": ["{proj}", "--output", "{out}", "--codemod-include", ",".join(ks)], "monitors": {"snap": True}})
+    # several dependency-adding codemods in one run (some need the SAME package, some find theirs already declared): every manifest diff belongs to the codemod that wrote it, once
+    DEPSRC = {"pixee:python/use-defusedxml": b"import xml.sax\nxml.sax.parse('f')\n", "pixee:python/harden-pickle-load": b"import pickle\npickle.load(open('f','rb'))\n",
+              "pixee:python/flask-enable-csrf-protection": b"from flask import Flask\napp = Flask(__name__)\n",
+              "pixee:python/url-sandbox": b"import requests\nfrom flask import request\ndef v():\n    requests.get(request.args['u'])\n", "pixee:python/sandbox-process-creation": b"import subprocess\nfrom flask import request\ndef w():\n    subprocess.run(request.args['c'])\n"}
+    seqs = [("pixee:python/url-sandbox", "pixee:python/sandbox-process-creation"), ("pixee:python/sandbox-process-creation", "pixee:python/url-sandbox", "pixee:python/use-defusedxml"),
+            ("pixee:python/use-defusedxml", "pixee:python/harden-pickle-load", "pixee:python/flask-enable-csrf-protection")]
+    for q, ks in enumerate(seqs if tier == "quick" else seqs + [tuple(reversed(x)) for x in seqs]):
+        for mk in (("req_lf", "pyproject", "setup_cfg") if tier == "quick" else sorted(MANIFESTS)):
+            files = {f"m_{k.split('/')[1].replace('-', '_')}.py": b64(DEPSRC[k]) for k in ks}; files.update({k: b64(v) for k, v in MANIFESTS[mk].items()})
+            jobs.append({"id": f"dep-seq:{q}:{mk}", "cid": ",".join(ks), "labels": {**{n: ("module", "plain", "lf") for n in files if n.endswith(".py") and n.startswith("m_")}, **{k: ("manifest", mk, "") for k in MANIFESTS[mk]}}, "files": files,
+                         "argv": ["{proj}", "--output", "{out}", "--codemod-include", ",".join(ks)], "monitors": {"snap": True}})
     return jobs
 
 def blob(s):
